@@ -834,4 +834,88 @@ example : methodSkippedAt exTable [("GET", false), ("PUT", true)] 1 "PUT" = true
 #print axioms C15_every_method
 #print axioms C15_witness_method
 
+/-! ## Wave 8 — refusal holds after ANY history of requests (authorised, refused, raising handlers) -/
+
+/-- a wrapper that keeps nothing between requests: one request of a history is the request of the model, whatever
+came before -/
+theorem stepH_stateless {σ π : Type} (V : View σ π) (t : Table) (τ : List Char) (s : Srv σ) (r : Request π) (raised : Bool) :
+    (stepH false V t τ s r raised).1.st = (handle V t (some τ) s.st r).1 ∧
+    (stepH false V t τ s r raised).2 = (handle V t (some τ) s.st r).2 ∧
+    (stepH false V t τ s r raised).1.residue = s.residue := by
+  simp [stepH]
+
+/-- the statement over histories: after ANY sequence of earlier requests — with the right token or without, served,
+refused, or ending in a raising handler — a request that does not present the token is refused and changes nothing -/
+def C15_fullH (sticky : Bool) (t : Table) : Prop :=
+  ∀ (σ π : Type) (V : View σ π) (τ : List Char) (s0 : σ) (hist : List (Request π × Bool)) (r : Request π) (raised : Bool),
+    ¬ presents r τ →
+    (∀ rt, t.routes[r.route]? = some rt → isPublic rt = false) →
+    (stepH sticky V t τ (runH sticky V t τ ⟨s0, false⟩ hist) r raised).2 ≥ 400 ∧
+    (stepH sticky V t τ (runH sticky V t τ ⟨s0, false⟩ hist) r raised).1.st = (runH sticky V t τ ⟨s0, false⟩ hist).st
+
+theorem C15_fullH_iff (t : Table) : C15_fullH false t ↔ C15_full t := by
+  constructor
+  · intro h σ π V τ s r hnp hpub
+    have := h σ π V τ s [] r false hnp hpub
+    simpa [runH, stepH] using this
+  · intro h σ π V τ s0 hist r raised hnp hpub
+    obtain ⟨a, b, _⟩ := stepH_stateless V t τ (runH false V t τ ⟨s0, false⟩ hist) r raised
+    rw [a, b]
+    exact h σ π V τ _ r hnp hpub
+
+/-- **`C15_refuse_after_history`**: all non-public rules protected and a stateless wrapper ⇒ after any history, from
+any initial state, for any views (raising ones included), a request not presenting the token, to a non-public rule,
+with a method other than OPTIONS, gets a status ≥ 400 and leaves the state as the history left it. -/
+theorem C15_refuse_after_history (t : Table) (hok : allProtected t = true)
+    {σ π : Type} (V : View σ π) (τ : List Char) (s0 : σ) (hist : List (Request π × Bool)) (r : Request π) (raised : Bool)
+    (hnp : ¬ presents r τ) (hpub : ∀ rt, t.routes[r.route]? = some rt → isPublic rt = false) (hopt : r.method ≠ "OPTIONS") :
+    (stepH false V t τ (runH false V t τ ⟨s0, false⟩ hist) r raised).2 ≥ 400 ∧
+    (stepH false V t τ (runH false V t τ ⟨s0, false⟩ hist) r raised).1.st = (runH false V t τ ⟨s0, false⟩ hist).st := by
+  obtain ⟨a, b, _⟩ := stepH_stateless V t τ (runH false V t τ ⟨s0, false⟩ hist) r raised
+  rw [a, b]
+  exact C15_refuse t hok V τ _ r hnp hpub hopt
+
+theorem C15_state_unchanged_after_history (t : Table) (hok : allProtected t = true)
+    {σ π : Type} (V : View σ π) (τ : List Char) (s0 : σ) (hist : List (Request π × Bool)) (r : Request π) (raised : Bool)
+    (hnp : ¬ presents r τ) (hpub : ∀ rt, t.routes[r.route]? = some rt → isPublic rt = false) :
+    (stepH false V t τ (runH false V t τ ⟨s0, false⟩ hist) r raised).1.st = (runH false V t τ ⟨s0, false⟩ hist).st := by
+  rw [(stepH_stateless V t τ _ r raised).1]
+  exact C15_state_unchanged t hok V τ _ r hnp hpub
+
+/-- Negation witness `served-after-history`: a marker that survives a raising authorised request (`sticky`) — one
+authorised request whose handler raises, then a request without any header to the same protected rule is served. -/
+theorem C15_witness_sticky (t : Table) (i : Nat) (m : String) (h : protectedAt t i m = true) : ¬ C15_fullH true t := by
+  intro hf
+  unfold protectedAt at h
+  cases hr : t.routes[i]? with
+  | none => simp [hr] at h
+  | some rt =>
+    simp only [hr, Bool.and_eq_true, Bool.not_eq_true'] at h
+    obtain ⟨⟨⟨⟨hp, hs⟩, hpr⟩, hmm⟩, hao⟩ := h
+    have hm' : m ∈ rt.methods := by simpa using hmm
+    -- the view answers with the status the request carries: 500 for the raising authorised one, 200 afterwards
+    have hw2 : word2 ['B', ' ', 'k'] = some ['k'] := by decide
+    have := (hf Unit Nat (fun _ p s => (s, p)) ['k'] ()
+      [({ route := i, method := m, auth := some ['B', ' ', 'k'], file := "", payload := 500 }, true)]
+      { route := i, method := m, auth := none, file := "", payload := 200 } false
+      (by rintro ⟨h, hh, _⟩; simp at hh)
+      (by intro rt' hrt'; simp only [hr] at hrt'; cases hrt'; exact hp)).1
+    simp [runH, stepH, reachesWrapper, acceptsB, authOK, hw2, handle, handleM, serveRoute, serveRouteM, guarded, guardedM,
+      skipOf, List.lookup, hr, hm', hao, hs, hpr] at this
+
+example : checkIsStateless [("raising /equations", false), ("in flight", false)] = true := by decide
+-- the sticky machine on the example table: refused before the raising request, served after it
+example : ((stepH true (fun _ p s => (s, p)) exTable "tok".toList ⟨(), false⟩
+      { route := 1, method := "POST", auth := none, file := "", payload := 200 } false).2,
+    (stepH true (fun _ p s => (s, p)) exTable "tok".toList
+      (runH true (fun _ p s => (s, p)) exTable "tok".toList ⟨(), false⟩
+        [({ route := 1, method := "POST", auth := some "Bearer tok".toList, file := "", payload := 500 }, true)])
+      { route := 1, method := "POST", auth := none, file := "", payload := 200 } false).2) = (401, 200) := by decide
+
+#print axioms stepH_stateless
+#print axioms C15_fullH_iff
+#print axioms C15_refuse_after_history
+#print axioms C15_state_unchanged_after_history
+#print axioms C15_witness_sticky
+
 end Bptk.C15
